@@ -299,7 +299,8 @@ func (s *Seq) exec(op *Op) {
 	case "abandon":
 		// dropping a handle is a crash at an operation boundary; only without any
 		// flusher on it (a surviving flusher would be a second writer on the directory)
-		if !s.Cfg.Async && !s.smallAsync && !s.NoReopen {
+		// and only in a committed state (Flush writes an object without committing)
+		if !s.Cfg.Async && !s.smallAsync && !s.NoReopen && s.quiescent {
 			s.reopen(false, op.Flag)
 		}
 	case "flush":
@@ -459,6 +460,17 @@ func (s *Seq) afterWrite(accepted bool) {
 	if s.Cfg.Async && accepted {
 		s.quiescent = false
 	}
+	if accepted {
+		s.syncCommitted()
+	}
+}
+
+// syncCommitted: in synchronous mode a successful mutating call ends with a
+// commit of the schema: files and schema on disk agree again.
+func (s *Seq) syncCommitted() {
+	if !s.Cfg.Async {
+		s.quiescent = !s.smallDirty
+	}
 }
 
 func (s *Seq) opResave(op *Op) {
@@ -507,6 +519,9 @@ func (s *Seq) opDelete(op *Op) {
 	}
 	s.modelDelete(op.Lid)
 	s.rejected = false
+	if err == nil {
+		s.syncCommitted()
+	}
 	s.lightReadsOf("after-delete", []int{op.Lid})
 }
 
@@ -518,6 +533,7 @@ func (s *Seq) opDeleteAll() {
 		s.modelDelete(l)
 	}
 	s.rejected = false
+	s.syncCommitted()
 	s.lightReads("after-deleteall")
 }
 
@@ -554,6 +570,12 @@ func (s *Seq) opFlush(op *Op) {
 		} else {
 			err = s.db.FlushAndCommit(o)
 		}
+		// the object file was written after the last commit of the schema: the
+		// collection is not in a committed state until the next commit
+		s.quiescent = false
+	}
+	if op.Mode == "commit" && err == nil {
+		s.syncCommitted()
 	}
 	if err != nil {
 		s.fail("read", "flush-failed:"+op.Mode, "flush(%s) failed: %v", op.Mode, err)
